@@ -4,14 +4,14 @@
    (b) bond scenarios: every subset of a candidate bond list over a peptide + ligand + water
        fragment (template bonds, the implied peptide link, carried and not carried bonds), and
        over a star-shaped ligand (more than four partners -> continuation records), with plain,
-       gapped and hybrid-36 serial numbers.
-   One state per input: inp = the structure, out = PdbFile!Expect(inp). *)
+       gapped and hybrid-36 serial numbers; two hubs that are each other's fourth partner.
+   Per input: inp = the structure, out = PdbFile!Expect(inp) once done. *)
 EXTENDS PdbFile, TLC
 
 CONSTANT Rich
 
-VARIABLES inp, out
-vars == <<inp, out>>
+VARIABLES inp, out, done
+vars == <<inp, out, done>>
 
 R(n, d) == <<n, d>>
 Opt(h, i, b, oc, q) == [h36 |-> h, ids |-> i, bf |-> b, occ |-> oc, chg |-> q]
@@ -53,6 +53,11 @@ Star ==
      A(TRUE, "A", 1, "LIG", "X3", "C") >>
 StarCand == << <<0, 1, 3>>, <<0, 2, 1>>, <<0, 3, 2>>, <<0, 4, 1>>, <<0, 5, 1>>, <<0, 6, 1>>, <<1, 2, 1>> >>
 
+(* two hubs bonded to each other, each other's FOURTH partner in the order the writer meets the
+   bonds: a reader that takes fewer than four partners per record loses the bond in both directions *)
+Hubs == [i \in 1..8 |-> A(TRUE, "A", 1, "UNL", IF i = 1 THEN "C1" ELSE IF i = 2 THEN "C2" ELSE "X1", "C")]   \* no residue template
+HubBonds == << <<0, 2, 1>>, <<0, 3, 1>>, <<0, 4, 1>>, <<1, 5, 1>>, <<1, 6, 1>>, <<1, 7, 1>>, <<0, 1, 2>> >>
+
 Line(n) == [i \in 1..n |-> <<R(3 * i, 2), R(i, 4), R(-i, 1)>>]
 SubSeqOf(cands, keep) == SelectSeq(cands, LAMBDA b : b \in keep)
 WithSerials(atoms, f) == [i \in DOMAIN atoms |-> [atoms[i] EXCEPT !.serial = f[i]]]
@@ -70,23 +75,25 @@ BondInputs ==
         BondInput(WithSerials(Star, [i \in 1..7 |-> 99995 + i]), StarCand, Elems(StarCand), H36Opt),
         BondInput(WithSerials(Fragment, [i \in 1..9 |-> 99990 + i]), FragCand, Elems(FragCand), IdOpt),
         BondInput(WithSerials(Fragment, [i \in 1..9 |-> 43770010 + i]), FragCand, Elems(FragCand), H36Opt)}
+  \cup {BondInput(Hubs, HubBonds, Elems(HubBonds), NoOpt)}
   \* a stack with bonds: CONECT follows the last ENDMDL
   \cup {[BondInput(Fragment, FragCand, Elems(FragCand), NoOpt) EXCEPT !.models = <<Line(9), Line(9)>>]}
 
 Inputs == ModelInputs \cup BadModelInputs \cup BondInputs
 
-Init == inp \in Inputs /\ out = Expect(inp)
-Next == UNCHANGED vars
+(* two steps per input, so that TLC's workers share the evaluation of Expect *)
+Init == inp \in Inputs /\ out = Pending /\ done = FALSE
+Next == ~done /\ done' = TRUE /\ out' = Expect(inp) /\ UNCHANGED inp
 Spec == Init /\ [][Next]_vars
 
-InvRoundTrip == RoundTripOK(inp, out)
-InvColumns == ColumnsOK(inp, out)
-InvAcceptance == AcceptanceOK(inp)
-InvModels == ModelsOK(inp, out)
-InvBonds == BondsOK(inp, out)
+InvRoundTrip == done => RoundTripOK(inp, out)
+InvColumns == done => ColumnsOK(inp, out)
+InvAcceptance == done => AcceptanceOK(inp)
+InvModels == done => ModelsOK(inp, out)
+InvBonds == done => BondsOK(inp, out)
 (* the line kinds of a written file: CRYST1?, then per model MODEL ATOM* (ENDMDL = OTHER), then CONECT* *)
 InvFraming ==
-  out.oc = "ok" =>
+  (done /\ out.oc = "ok") =>
     LET k == Kinds(out.lines)  M == NModels(inp)  n == NAtoms(inp) IN
     /\ Len(Positions(k, "ATOM")) = M * n
     /\ Len(Positions(k, "MODEL")) = IF M > 1 THEN M ELSE 0
